@@ -1317,15 +1317,108 @@ case_legacy(long idx, void *ctx)
 }
 
 /* ================================================================== driver */
+/* many data sets in one file (the tables that pair each old-style description with its twin grow past their first size):
+   both interfaces list the same number of data sets, in the same order, with the same values */
+static void
+case_manysds(long idx, void *ctx)
+{
+    (void)ctx;
+    static const int NN[] = {99, 100, 101, 130, 260};
+    int   n = NN[idx % 5], isf = (int)(idx / 5 % 2), dir = (int)(idx / 10 % 2);
+    int32 nt = isf ? DFNT_FLOAT32 : DFNT_INT16;
+    int   cfg[4] = {9, (int)(idx % 5), isf, dir};
+    mc_set_config(cfg, 4, "family=manysds");
+    setcase("%d %s data sets of 3 values %s", n, isf ? "float32" : "int16", dir ? "written by SD, read by DFSD" : "written by DFSD, read by SD");
+    vfs_remove_file(PATH);
+    int32 dm = 3, z = 0;
+    uint8 v[3 * 8], got[3 * 8 + 8];
+    int   esz = ESZ(nt);
+    if (dir == 0) {
+        for (int i = 0; i < n; i++) {
+            fill_values(nt, 3, v, i);
+            DFSDclear();
+            if (DFSDsetdims(1, &dm) == FAIL || DFSDsetNT(nt) == FAIL || (i ? DFSDadddata(PATH, 1, &dm, v) : DFSDputdata(PATH, 1, &dm, v)) == FAIL) {
+                mc_violation("manysds:dfsd-write-failed", "%s: DFSD refused data set %d", g_case, i);
+                return;
+            }
+        }
+    }
+    else {
+        int32 S = SDstart(PATH, DFACC_CREATE);
+        for (int i = 0; i < n; i++) {
+            char nm[24];
+            snprintf(nm, sizeof nm, "d%03d", i);
+            fill_values(nt, 3, v, i);
+            int32 id = SDcreate(S, nm, nt, 1, &dm);
+            if (id == FAIL || SDwritedata(id, &z, NULL, &dm, v) == FAIL || SDendaccess(id) == FAIL) {
+                mc_violation("manysds:sd-write-failed", "%s: SD refused data set %d", g_case, i);
+                return;
+            }
+        }
+        if (SDend(S) == FAIL) {
+            mc_violation("manysds:sd-write-failed", "%s: SDend failed", g_case);
+            return;
+        }
+    }
+    /* DFSD view */
+    int nd = DFSDndatasets((char *)PATH);
+    if (nd != n)
+        DISAGREE("manysds:dfsd-count", "DFSDndatasets reports %d data sets", nd);
+    DFSDrestart();
+    for (int i = 0; i < n && i < nd; i++) {
+        int32 rank = 0, dims[4] = {0}, t = 0;
+        memset(got, 0xEE, sizeof got);
+        fill_values(nt, 3, v, i);
+        if (DFSDgetdims(PATH, &rank, dims, 4) == FAIL || DFSDgetNT(&t) == FAIL || rank != 1 || dims[0] != 3 || t != nt || DFSDgetdata(PATH, 1, dims, got) == FAIL ||
+            memcmp(got, v, (size_t)(3 * esz))) {
+            DISAGREE("manysds:dfsd-order-or-data", "the %d-th data set DFSD delivers is not the %d-th one written", i, i);
+            break;
+        }
+    }
+    /* SD view */
+    int32 S = SDstart(PATH, DFACC_READ), nds = 0, na = 0;
+    if (S == FAIL) {
+        DISAGREE("manysds:sd-cannot-open", "SDstart fails");
+        return;
+    }
+    SDfileinfo(S, &nds, &na);
+    /* as in sd_check: coordinate variables (SD lists one per dimension it promotes) are not data sets */
+    int seen = 0, bad = -1;
+    for (int k = 0; k < nds; k++) {
+        int32 id = SDselect(S, k), rank = 0, dims[4] = {0}, t = 0, nat = 0;
+        char  nm[H4_MAX_NC_NAME + 1];
+        if (id == FAIL)
+            continue;
+        if (SDiscoordvar(id)) {
+            SDendaccess(id);
+            continue;
+        }
+        memset(got, 0xEE, sizeof got);
+        fill_values(nt, 3, v, seen);
+        if (bad < 0 && seen < n &&
+            (SDgetinfo(id, nm, &rank, dims, &t, &nat) == FAIL || rank != 1 || dims[0] != 3 || t != nt || SDreaddata(id, &z, NULL, &dm, got) == FAIL || memcmp(got, v, (size_t)(3 * esz))))
+            bad = seen;
+        seen++;
+        SDendaccess(id);
+    }
+    if (seen != n)
+        DISAGREE("manysds:sd-count", "SD presents %d data sets (coordinate variables not counted)", seen);
+    if (bad >= 0)
+        DISAGREE("manysds:sd-order-or-data", "the %d-th data set SD presents is not the %d-th one written", bad, bad);
+    SDend(S);
+    mc_outcome(mc_hash_i(mc_hash_i(MC_H0, 9), idx));
+    mc_count("manysds_cases", 1);
+}
+
 typedef struct {
     const char *name;
     void (*fn)(long, void *);
     long n;
 } fam_t;
 static fam_t FAM[] = {
-    {"sds", case_sds, 2 * NSHAPE * NNT * 8 * 2}, {"img", case_img, 4 * 4 * 3 * 2}, {"ann", case_ann, 2 * 4 * 3}, {"nc", case_nc, 2 * 5 * 2 * 2}, {"vview", case_vview, 12}, {"legacy", case_legacy, 0}, {"recvar", case_recvar, NNT * 4 * 2}, {"palettes", case_palettes, 8}, {"mixedimg", case_mixedimg, 8},
+    {"sds", case_sds, 2 * NSHAPE * NNT * 8 * 2}, {"img", case_img, 4 * 4 * 3 * 2}, {"ann", case_ann, 2 * 4 * 3}, {"nc", case_nc, 2 * 5 * 2 * 2}, {"vview", case_vview, 12}, {"legacy", case_legacy, 0}, {"recvar", case_recvar, NNT * 4 * 2}, {"palettes", case_palettes, 8}, {"mixedimg", case_mixedimg, 8}, {"manysds", case_manysds, 20},
 };
-#define NFAM 9
+#define NFAM 10
 
 int
 C15_main(const char *tier, const char *replay)
@@ -1355,6 +1448,7 @@ C15_main(const char *tier, const char *replay)
             case 6: idx = cfg[1] + (long)NNT * (cfg[2] + 4 * cfg[3]); break;
             case 7: idx = cfg[1] + 2 * (cfg[2] - 1); break;
             case 8: idx = cfg[1] + 2 * cfg[2]; break;
+            case 9: idx = cfg[1] + 5 * (cfg[2] + 2 * cfg[3]); break;
         }
         FAM[cfg[0]].fn(idx, NULL);
         printf("replay C15: %s\n", g_case);
